@@ -79,6 +79,8 @@ impl Evt {
 struct Shared {
     evs: Vec<Evt>,
     inflight: Vec<(u32, InFlight)>,
+    /// factory futures that exist and have not completed: (service, incarnation, polled at least once)
+    fac_live: Vec<(usize, usize, bool)>,
 }
 
 struct Svc {
@@ -145,6 +147,9 @@ impl Future for FacFut {
     type Output = Result<(usize, Box<dyn VerifService>), ()>;
     fn poll(mut self: Pin<&mut Self>, _cx: &mut Context<'_>) -> Poll<Self::Output> {
         let this = &mut *self;
+        if let Some(e) = this.shared.borrow_mut().fac_live.iter_mut().find(|e| e.0 == this.idx && e.1 == this.inc) {
+            e.2 = true;
+        }
         let spec = this.spec.as_mut().expect("factory future polled after completion");
         if spec.fpend > 0 {
             spec.fpend -= 1;
@@ -165,12 +170,21 @@ impl Future for FacFut {
     }
 }
 
+impl Drop for FacFut {
+    fn drop(&mut self) {
+        if let Ok(mut sh) = self.shared.try_borrow_mut() {
+            sh.fac_live.retain(|e| !(e.0 == self.idx && e.1 == self.inc));
+        }
+    }
+}
+
 impl VerifFactory for Fac {
     fn create(&self) -> LocalBoxFuture<'static, Result<(usize, Box<dyn VerifService>), ()>> {
         self.shared.borrow_mut().evs.push(Evt::Create(self.idx));
         let spec = self.future.borrow_mut().pop_front().unwrap_or(IncSpec { fpend: 0, fok: true, script: VecDeque::new() });
         let mut c = self.created.borrow_mut();
         *c += 1;
+        self.shared.borrow_mut().fac_live.push((self.idx, *c, false));
         Box::pin(FacFut { idx: self.idx, inc: *c, spec: Some(spec), shared: self.shared.clone() })
     }
 }
@@ -678,7 +692,7 @@ fn do_poll(h: &Harness, c: &mut Case, acts: Option<Vec<Vec<String>>>, t3: &mut V
     t3.extend(t3_in.borrow_mut().drain(..));
     let evs: Vec<Evt> = c.shared.borrow().evs.clone();
     let ev_s: Vec<String> = evs.iter().map(|e| e.show()).collect();
-    let _ = c.woke();
+    let woke_in_poll = c.woke() != 0;
     let acts_s = if acts.is_some() { format!("acts=[{}] ", act_res.borrow().join(",")) } else { String::new() };
     match r {
         Err(_msg) => {
@@ -708,6 +722,20 @@ fn do_poll(h: &Harness, c: &mut Case, acts: Option<Vec<Vec<String>>>, t3: &mut V
                 c.driver = Some(drv);
             }
             oracle_c07(c, &evs, stop_handled_before, t3);
+            // a worker that goes to sleep while it re-creates a service sleeps on the factory's future: a future that was
+            // never polled has no waker of the worker — unless the worker woke itself, nothing will ever poll it
+            // (the accept thread goes on sending connections to this live worker: neither served nor released; C07, C01)
+            if !done && !woke_in_poll {
+                let unpolled: Vec<(usize, usize)> = c.shared.borrow().fac_live.iter().filter(|e| !e.2).map(|e| (e.0, e.1)).collect();
+                if let Some((i, inc)) = unpolled.first() {
+                    for tag in ["C07", "C01"] {
+                        t3.push((tag.into(), format!(
+                            "the worker returned Pending right after it started to re-create service {i} (incarnation {inc}): the factory's future was never polled, so no waker is registered for it and the worker did not wake itself — it sleeps in Restarting while connections keep being sent to it (events of the poll: [{}])",
+                            ev_s.join(",")
+                        )));
+                    }
+                }
+            }
             // connections the worker closed: the counter went down once per connection released with a guard
             // (corrected by what the in-poll actions did to it); once the future is gone everything still
             // queued is gone with it
@@ -855,7 +883,10 @@ fn oracle_c06(c: &mut Case, evs: &[Evt], closed: &[u32], done: bool, raw_before:
     }
     // queued connections are released (never called: see oracle_c07) by every poll of a stopping worker
     if !done && !c.queued.is_empty() {
-        t3.push(("C06".into(), format!("worker is shutting down but connection(s) {:?} are still in its channel after poll", c.queued)));
+        // (C01: connections still queued at a worker when it shuts down are released)
+        for tag in ["C06", "C01"] {
+            t3.push((tag.into(), format!("worker is shutting down but connection(s) {:?} are still in its channel after poll: a connection that reaches a stopping worker is released, not kept until shutdown_timeout", c.queued)));
+        }
     }
     // stop always completes: polled promptly, the worker is done no later than t0 + (ceil(T/tick)+1)*tick
     if c.prompt && !done && !c.stops.iter().any(|x| x.in_poll) {
@@ -932,7 +963,7 @@ fn run(a: &Args) {
                 None
             }
             // what C06 demands of the shape of the source (the Lean driver prints what T1 read from it)
-            ["k-shape"] => Some("none-arm-polls-stop=1 run-breaks-on-stopping=1 stop-sends-eagerly=1 await-guard=graceful".into()),
+            ["k-shape"] => Some("none-arm-polls-stop=1 run-breaks-on-stopping=1 stop-sends-eagerly=1 await-guard=graceful mux-hands-on-cmd-rx=1 default-timeout=30 default-conns=25600 builder-starts-from-default=1".into()),
             ["k-total", v] => Some(match num(v) {
                 Some(v) => match catch(|| actix_server::verif::kernel_counter_total(v)) {
                     Ok(t) => t.to_string(),
@@ -1014,7 +1045,10 @@ fn run(a: &Args) {
 // server level (C06): the real public API in real time
 // ------------------------------------------------------------------------------------------------
 mod srvlevel {
-    //! `srv <name> workers=W timeout=S mode=g|f holds=<ms|n>,… [second=g|f] [drop=1] [paused=1]`
+    //! `srv <name> workers=W timeout=S|default mode=g|f holds=<ms|n>,… [second=g|f[,g|f…]] [gap2=<ms>] [drop=1] [paused=1]`
+    //!   (`timeout=default`: `ServerBuilder::shutdown_timeout` is never called — the documented default of 30 s is what is
+    //!   judged; `second=`: further stop() calls, each `gap2` ms after the previous call: EVERY stop future may resolve only
+    //!   once the shutdown is complete)
     //!   the real `Server::build()…run()` + `ServerHandle::stop`, clients holding connections open;
     //!   observation `stop=<k|dropped> server=<k> second=<k|-> after=<refused|unserved>` with
     //!   k = floor((t_ms + 400) / 1000) of the resolution time measured from the stop call.
@@ -1063,12 +1097,15 @@ mod srvlevel {
     /// `served` counts the connections that presented `nonce` (this scenario's own clients): ports are reused
     /// quickly when many checks run at once, so a stranger may connect to this server, and a probe of this
     /// scenario may reach a stranger's server — neither may be mistaken for "served by this server"
-    fn server(workers: usize, timeout: u64, signals: bool, served: Arc<AtomicUsize>, nonce: [u8; 8]) -> std::io::Result<(actix_server::Server, std::net::SocketAddr)> {
+    fn server(workers: usize, timeout: Option<u64>, signals: bool, served: Arc<AtomicUsize>, nonce: [u8; 8]) -> std::io::Result<(actix_server::Server, std::net::SocketAddr)> {
         use actix_service::fn_service;
         use tokio::io::{AsyncReadExt, AsyncWriteExt};
         let lst = std::net::TcpListener::bind("127.0.0.1:0")?;
         let addr = lst.local_addr()?;
-        let mut b = actix_server::Server::build().workers(workers).shutdown_timeout(timeout);
+        let mut b = actix_server::Server::build().workers(workers);
+        if let Some(t) = timeout {
+            b = b.shutdown_timeout(t); // None: the default configuration
+        }
         if !signals {
             b = b.disable_signals();
         }
@@ -1113,16 +1150,44 @@ mod srvlevel {
     where
         F: FnOnce() -> std::io::Result<(actix_server::Server, std::net::SocketAddr)> + Send + 'static,
     {
+        let (h, a, drx, ktx) = host_server_droppable(build)?;
+        std::mem::forget(ktx); // never dropped, never fired: the Server future is awaited to its end
+        Ok((h, a, drx))
+    }
+
+    /// … and a sender that makes the hosting thread DROP the `Server` future (unresolved, no stop): the accept thread and the
+    /// workers go on without a command loop (what a `select!` that the server future loses does to an application)
+    #[allow(clippy::type_complexity)]
+    fn host_server_droppable<F>(build: F) -> std::io::Result<(actix_server::ServerHandle, std::net::SocketAddr, tokio::sync::oneshot::Receiver<()>, tokio::sync::oneshot::Sender<()>)>
+    where
+        F: FnOnce() -> std::io::Result<(actix_server::Server, std::net::SocketAddr)> + Send + 'static,
+    {
         let (tx, rx) = std::sync::mpsc::channel();
         let (dtx, drx) = tokio::sync::oneshot::channel();
+        let (ktx, krx) = tokio::sync::oneshot::channel::<()>();
         std::thread::spawn(move || {
             let rt = tokio::runtime::Builder::new_current_thread().enable_all().build().unwrap();
             rt.block_on(async move {
                 match build() {
                     Ok((srv, addr)) => {
                         let _ = tx.send(Ok((srv.handle(), addr)));
-                        let _ = srv.await;
-                        let _ = dtx.send(());
+                        let mut srv = Box::pin(srv);
+                        let resolved = tokio::select! {
+                            _ = &mut srv => true,
+                            r = krx => match r {
+                                Ok(()) => false,
+                                Err(_) => {
+                                    let _ = (&mut srv).await;
+                                    true
+                                }
+                            },
+                        };
+                        if resolved {
+                            let _ = dtx.send(());
+                        } else {
+                            drop(srv);
+                            drop(dtx);
+                        }
                     }
                     Err(e) => {
                         let _ = tx.send(Err(e));
@@ -1131,7 +1196,7 @@ mod srvlevel {
             });
         });
         match rx.recv_timeout(Duration::from_secs(20)) {
-            Ok(Ok((h, a))) => Ok((h, a, drx)),
+            Ok(Ok((h, a))) => Ok((h, a, drx, ktx)),
             Ok(Err(e)) => Err(e),
             Err(_) => Err(std::io::Error::new(std::io::ErrorKind::TimedOut, "server did not start")),
         }
@@ -1164,33 +1229,46 @@ mod srvlevel {
 
     struct Scn {
         workers: usize,
-        timeout: u64,
+        timeout: Option<u64>, // None: the default configuration (documented: 30 s)
         graceful: bool,
         holds: Vec<Option<u64>>,
-        second: Option<bool>,
+        second: Vec<bool>,
+        gap2: u64,
         dropfut: bool,
         paused: bool,
     }
 
     fn parse_scn(ws: &[&str]) -> Option<Scn> {
         let workers = kv(ws, "workers").and_then(super::num).unwrap_or(1);
-        let timeout = kv(ws, "timeout").and_then(super::num).unwrap_or(1) as u64;
+        let timeout = match kv(ws, "timeout") {
+            Some("default") => None,
+            t => Some(t.and_then(super::num).unwrap_or(1) as u64),
+        };
         let graceful = match kv(ws, "mode") {
             Some("g") => true,
             Some("f") => false,
             _ => return None,
         };
         let holds = kv(ws, "holds").and_then(parse_holds)?;
-        let second = match kv(ws, "second") {
-            None => None,
-            Some("g") => Some(true),
-            Some("f") => Some(false),
-            _ => return None,
+        let second: Vec<bool> = match kv(ws, "second") {
+            None => vec![],
+            Some(t) => t
+                .split(',')
+                .map(|x| match x {
+                    "g" => Some(true),
+                    "f" => Some(false),
+                    _ => None,
+                })
+                .collect::<Option<Vec<_>>>()?,
         };
-        if workers == 0 || workers > 64 || holds.len() > 64 || timeout > 10 {
+        let gap2 = match kv(ws, "gap2") {
+            None => 0,
+            Some(g) => super::num(g)? as u64,
+        };
+        if workers == 0 || workers > 64 || holds.len() > 64 || timeout.is_some_and(|t| t > 10) || second.len() > 4 || gap2 > 5000 {
             return None;
         }
-        Some(Scn { workers, timeout, graceful, holds, second, dropfut: kv(ws, "drop") == Some("1"), paused: kv(ws, "paused") == Some("1") })
+        Some(Scn { workers, timeout, graceful, holds, second, gap2, dropfut: kv(ws, "drop") == Some("1"), paused: kv(ws, "paused") == Some("1") })
     }
 
     async fn scenario(sc: &Scn) -> Outcome {
@@ -1273,13 +1351,27 @@ mod srvlevel {
                 t0.elapsed().as_millis()
             }))
         };
-        let second_task = sc.second.map(|g2| {
-            let f = handle.stop(g2);
-            tokio::spawn(async move {
-                f.await;
-                t0.elapsed().as_millis()
-            })
-        });
+        // further stop() calls, each `gap2` ms after the previous call; per call: (graceful, issued at, resolved at)
+        let second_task = if sc.second.is_empty() {
+            None
+        } else {
+            let (h2, seconds, gap2) = (handle.clone(), sc.second.clone(), sc.gap2);
+            Some(tokio::spawn(async move {
+                let mut tasks = vec![];
+                for g2 in seconds {
+                    if gap2 > 0 {
+                        tokio::time::sleep(Duration::from_millis(gap2)).await;
+                    }
+                    let f = h2.stop(g2);
+                    let issued = t0.elapsed().as_millis();
+                    tasks.push((g2, issued, tokio::spawn(async move {
+                        f.await;
+                        t0.elapsed().as_millis()
+                    })));
+                }
+                tasks
+            }))
+        };
         // each client watches its connection until its release time: Some(ms) = the *server* closed it at ms
         let finish = Arc::new(tokio::sync::Notify::new());
         let mut client_tasks = vec![];
@@ -1305,7 +1397,7 @@ mod srvlevel {
                 }
             }));
         }
-        let t_ms = sc.timeout as u128 * 1000;
+        let t_ms = sc.timeout.unwrap_or(30) as u128 * 1000;
         let bound = ((t_ms + 999) / 1000 + 1) * 1000;
         let cap = Duration::from_millis((bound + 5500) as u64);
         let t_server = match tokio::time::timeout(cap, &mut srv_done).await {
@@ -1319,19 +1411,30 @@ mod srvlevel {
                 _ => None,
             },
         };
-        let t_second = match second_task {
-            None => None,
-            Some(t) => match tokio::time::timeout(Duration::from_millis(3000), t).await {
-                Ok(Ok(ms)) => Some(Some(ms)),
-                _ => Some(None),
+        let t_seconds: Vec<(bool, u128, Option<u128>)> = match second_task {
+            None => vec![],
+            Some(t) => match tokio::time::timeout(Duration::from_millis(3000 + 4 * sc.gap2), t).await {
+                Ok(Ok(tasks)) => {
+                    let mut v = vec![];
+                    for (g2, issued, t) in tasks {
+                        v.push((g2, issued, match tokio::time::timeout(Duration::from_millis(3000), t).await {
+                            Ok(Ok(ms)) => Some(ms),
+                            _ => None,
+                        }));
+                    }
+                    v
+                }
+                _ => sc.second.iter().map(|g2| (*g2, 0, None)).collect(),
             },
         };
         out.server = if t_server.is_some() { "resolved" } else { "never" };
         out.stop = if sc.dropfut { "dropped" } else if t_stop.is_some() { "resolved" } else { "never" };
-        out.second = match t_second {
-            None => "-",
-            Some(Some(_)) => "resolved",
-            Some(None) => "never",
+        out.second = if t_seconds.is_empty() {
+            "-"
+        } else if t_seconds.iter().all(|x| x.2.is_some()) {
+            "resolved"
+        } else {
+            "never"
         };
         // nothing is served after completion: a probe presenting our nonce must not be counted by OUR service
         // (whoever answers on that port now — nobody, or a stranger that got the port — is not our concern)
@@ -1362,10 +1465,30 @@ mod srvlevel {
         if sc.graceful && !sc.holds.is_empty() {
             if let Some(done_at) = t_stop.or(t_server) {
                 if done_at + 60 < need {
-                    out.early.push(format!(
-                        "graceful stop completed after {done_at} ms although connections were in progress until {} and shutdown_timeout is {t_ms} ms",
-                        all_done.map_or("never".to_string(), |x| format!("{x} ms"))
-                    ));
+                    out.early.push(match sc.timeout {
+                        Some(_) => format!(
+                            "graceful stop completed after {done_at} ms although connections were in progress until {} and shutdown_timeout is {t_ms} ms",
+                            all_done.map_or("never".to_string(), |x| format!("{x} ms"))
+                        ),
+                        None => format!(
+                            "graceful stop completed after {:.1} s with a connection still in progress (until {}) although neither the connection finished nor the default timeout of 30 s elapsed (ServerBuilder::shutdown_timeout was not called)",
+                            done_at as f64 / 1000.0,
+                            all_done.map_or("never".to_string(), |x| format!("{x} ms"))
+                        ),
+                    });
+                }
+            }
+            // every further stop(): its future, too, resolves only when the shutdown is complete — a stop issued during a
+            // graceful shutdown (graceful or forced) must not be answered while connections are in progress and time is left
+            for (i, (g2, issued, resolved)) in t_seconds.iter().enumerate() {
+                if let Some(ms) = resolved {
+                    if ms + 60 < need {
+                        out.early.push(format!(
+                            "the future of stop({g2}) no. {} (called {issued} ms into the graceful shutdown) resolved after {ms} ms although connections were in progress until {} and shutdown_timeout is {t_ms} ms: every stop completes only when the shutdown does",
+                            i + 2,
+                            all_done.map_or("never".to_string(), |x| format!("{x} ms"))
+                        ));
+                    }
                 }
             }
             for (i, cl) in closed_at.iter().enumerate() {
@@ -1482,7 +1605,7 @@ mod srvlevel {
     }
 
     /// child process: a server with OS signals enabled; prints its port, exits when the server future resolves
-    pub fn sigchild(timeout: u64) {
+    pub fn sigchild(timeout: Option<u64>) {
         let served = Arc::new(AtomicUsize::new(0));
         let sys = actix_rt::System::new();
         sys.block_on(async move {
@@ -1502,7 +1625,10 @@ mod srvlevel {
             Some("quit") => ("QUIT", false),
             _ => return (line.to_string(), "bad-op".into(), vec![]),
         };
-        let timeout = kv(&ws, "timeout").and_then(super::num).unwrap_or(1) as u64;
+        let timeout: Option<u64> = match kv(&ws, "timeout") {
+            Some("default") => None, // the default configuration (documented: 30 s)
+            t => Some(t.and_then(super::num).unwrap_or(1) as u64),
+        };
         let hold = match kv(&ws, "hold").and_then(parse_holds) {
             Some(h) if h.len() == 1 => h[0],
             _ => return (line.to_string(), "bad-op".into(), vec![]),
@@ -1512,7 +1638,7 @@ mod srvlevel {
             Err(e) => return (line.to_string(), format!("setup-error {e}"), vec![]),
         };
         let mut child = match std::process::Command::new(exe)
-            .args(["sigchild", &timeout.to_string()])
+            .args(["sigchild", &timeout.map_or("default".to_string(), |t| t.to_string())])
             .stdout(std::process::Stdio::piped())
             .stderr(std::process::Stdio::null())
             .spawn()
@@ -1556,7 +1682,11 @@ mod srvlevel {
         std::thread::sleep(Duration::from_millis(100)); // let the signal handlers be installed
         let t0 = Instant::now();
         let _ = std::process::Command::new("kill").args([&format!("-{signame}"), &child.id().to_string()]).status();
-        let cap = Duration::from_millis(timeout * 1000 + 7000);
+        let t_ms = timeout.unwrap_or(30) as u128 * 1000;
+        let cap = Duration::from_millis(match (timeout, hold) {
+            (None, Some(h)) => h + 7000, // default configuration: only with a connection that ends (no 37 s waits)
+            _ => t_ms as u64 + 7000,
+        });
         let mut released = false;
         let mut exit_ms = None;
         let mut c = Some(c);
@@ -1583,11 +1713,14 @@ mod srvlevel {
                 fails.push(format!("the server process did not exit within {} ms of SIG{signame}", cap.as_millis()));
             }
             Some(ms) => {
-                let t_ms = timeout as u128 * 1000;
                 let need = hold.map_or(t_ms, |h| (h as u128).min(t_ms));
                 if graceful && ms + 60 < need {
                     early = true;
-                    fails.push(format!("SIGTERM: the process exited after {ms} ms with a connection in progress until {:?}, shutdown_timeout {t_ms} ms", hold));
+                    fails.push(format!(
+                        "SIGTERM: the process exited after {ms} ms with a connection in progress until {:?}, shutdown_timeout {}",
+                        hold,
+                        if timeout.is_some() { format!("{t_ms} ms") } else { "not configured (default: 30 s)".to_string() }
+                    ));
                 }
                 if !graceful && t_ms >= 5000 && hold.is_none() && ms > 3000 {
                     early = true;
@@ -1783,8 +1916,12 @@ mod srvlevel {
     // ---------------------------------------------------------------------------------------------
     struct FaultShared {
         instances: AtomicUsize,
-        kill_next: std::sync::atomic::AtomicBool,
+        /// 0: nobody; KILL_ANY: whichever instance is called next; g: instance g at its next call
+        kill_target: AtomicUsize,
+        killed_gens: std::sync::Mutex<Vec<usize>>,
     }
+
+    const KILL_ANY: usize = usize::MAX;
 
     struct FaultySvc {
         gen: usize,
@@ -1801,8 +1938,10 @@ mod srvlevel {
 
         fn call(&self, mut stream: actix_rt::net::TcpStream) -> Self::Future {
             use tokio::io::AsyncWriteExt;
-            if self.shared.kill_next.swap(false, Ordering::SeqCst) {
+            let t = self.shared.kill_target.load(Ordering::SeqCst);
+            if (t == KILL_ANY || t == self.gen) && self.shared.kill_target.compare_exchange(t, 0, Ordering::SeqCst, Ordering::SeqCst).is_ok() {
                 self.killed.set(true);
+                self.shared.killed_gens.lock().unwrap().push(self.gen);
                 panic!("verif: killing worker instance {} on purpose", self.gen);
             }
             let gen = self.gen;
@@ -1871,15 +2010,29 @@ mod srvlevel {
             _ => return (line.to_string(), "bad-op".into(), vec![]),
         };
         let exact = limit.is_none() && workers == 2; // answers are deterministic only in the plain two-worker scenario
-        if with_stop && !exact {
+        // `pair=1`: at the end, `workers` connections opened and held at the same time (with `limit=1`: one per worker — every
+        // worker, the replacements included, is in the rotation under an index of its own);
+        // `dropsrv=1`: the Server future is dropped (no stop) before the fault: accept thread and workers go on, the fault is
+        // reported to nobody, the discovering connection and every later one still go to the live worker
+        let pair = match kv(&ws, "pair") {
+            None => false,
+            Some("1") => true,
+            _ => return (line.to_string(), "bad-op".into(), vec![]),
+        };
+        let dropsrv = match kv(&ws, "dropsrv") {
+            None => false,
+            Some("1") => true,
+            _ => return (line.to_string(), "bad-op".into(), vec![]),
+        };
+        if (with_stop && (!exact || pair)) || (dropsrv && (!exact || with_stop || pair || faults != 1)) {
             return (line.to_string(), "bad-op".into(), vec![]);
         }
         let rt = tokio::runtime::Builder::new_current_thread().enable_all().build().unwrap();
         let mut fails = vec![];
         let obs = rt.block_on(async {
-            let shared = Arc::new(FaultShared { instances: AtomicUsize::new(0), kill_next: std::sync::atomic::AtomicBool::new(false) });
+            let shared = Arc::new(FaultShared { instances: AtomicUsize::new(0), kill_target: AtomicUsize::new(0), killed_gens: Default::default() });
             let sh = shared.clone();
-            let (handle, addr, mut srv_done) = match host_server(move || {
+            let (handle, addr, mut srv_done, drop_srv) = match host_server_droppable(move || {
                 let lst = std::net::TcpListener::bind("127.0.0.1:0")?;
                 let addr = lst.local_addr()?;
                 let mut b = actix_server::Server::build().workers(workers).shutdown_timeout(STOP_T).disable_signals();
@@ -1909,8 +2062,50 @@ mod srvlevel {
             // handles = [w0 (instance 1), w1 (instance 2)], round-robin from slot 0
             answers.push(ask(addr, w).await);
             answers.push(ask(addr, w).await);
+            let mut drop_srv = Some(drop_srv);
+            if dropsrv {
+                // ---- the Server future goes away without a stop; then worker 0 dies; everything later belongs to worker 1
+                let _ = drop_srv.take().unwrap().send(());
+                let _ = tokio::time::timeout(Duration::from_secs(5), &mut srv_done).await; // Err: dropped
+                tokio::time::sleep(Duration::from_millis(100)).await;
+                shared.kill_target.store(KILL_ANY, Ordering::SeqCst);
+                let killed = ask(addr, Duration::from_millis(1500)).await;
+                tokio::time::sleep(Duration::from_millis(gap)).await;
+                let mut later: Vec<Result<Option<u8>, std::io::ErrorKind>> = vec![];
+                for _ in 0..6 {
+                    later.push(match tokio::net::TcpStream::connect(addr).await {
+                        Err(e) => Err(e.kind()),
+                        Ok(mut c) => {
+                            use tokio::io::AsyncReadExt;
+                            let _ = socket2::SockRef::from(&c).set_linger(Some(Duration::ZERO));
+                            let mut b = [0u8; 1];
+                            match tokio::time::timeout(w, c.read_exact(&mut b)).await {
+                                Ok(Ok(_)) => Ok(Some(b[0])),
+                                _ => Ok(None),
+                            }
+                        }
+                    });
+                    tokio::time::sleep(Duration::from_millis(30)).await;
+                }
+                for (k, r) in later.iter().enumerate() {
+                    match r {
+                        Ok(Some(_)) => {}
+                        Ok(None) => fails.push(format!("[C08,C01] connection #{k} made after worker 0 died (the Server future had been dropped, accept thread and worker 1 are alive) was closed without an answer: it was not re-routed to the live worker")),
+                        Err(e) => fails.push(format!("[C08] connection #{k} made after worker 0 died (the Server future had been dropped) could not even connect ({e:?}): the accept thread is gone — it must survive a worker fault that it can report to nobody")),
+                    }
+                }
+                // nobody to stop this server through: the process (a child of the harness) ends with the scenario
+                return format!(
+                    "before={}{} dropped=1 killed={} later-all-served={}",
+                    show(answers[0]),
+                    show(answers[1]),
+                    show(killed),
+                    later.iter().all(|x| matches!(x, Ok(Some(_)))) as u8
+                );
+            }
+            std::mem::forget(drop_srv.take());
             // kill w0 (its turn): the killing connection gets no answer
-            shared.kill_next.store(true, Ordering::SeqCst);
+            shared.kill_target.store(KILL_ANY, Ordering::SeqCst);
             let killed = ask(addr, Duration::from_millis(1500)).await;
             let t_kill = Instant::now();
             tokio::time::sleep(Duration::from_millis(gap)).await;
@@ -1936,8 +2131,19 @@ mod srvlevel {
             // `faults=2`: the same again — a worker dies, is replaced, and connections are answered afterwards
             let mut second_obs = String::new();
             if faults == 2 {
-                shared.kill_next.store(true, Ordering::SeqCst);
-                let killed2 = ask(addr, Duration::from_millis(1500)).await;
+                // two workers: the second fault hits the OTHER worker (the original instance that is still alive)
+                let already = shared.killed_gens.lock().unwrap().clone();
+                let target = if workers == 2 { (1..=2usize).find(|g| !already.contains(g)).unwrap_or(KILL_ANY) } else { KILL_ANY };
+                shared.kill_target.store(target, Ordering::SeqCst);
+                let mut killed2 = Some(b'?');
+                for _ in 0..40 {
+                    let r = ask(addr, Duration::from_millis(1500)).await;
+                    if shared.killed_gens.lock().unwrap().len() > already.len() {
+                        killed2 = r;
+                        break;
+                    }
+                    tokio::time::sleep(Duration::from_millis(25)).await;
+                }
                 tokio::time::sleep(Duration::from_millis(gap)).await;
                 let t = Instant::now();
                 while shared.instances.load(Ordering::SeqCst) < workers + 2 && t.elapsed() < Duration::from_secs(10) {
@@ -1959,6 +2165,42 @@ mod srvlevel {
                     }
                 }
                 second_obs = format!(" killed2={} replaced2={} later2-all-served={}", killed2.map_or('-', |b| b as char), replaced2 as u8, later2.iter().all(|x| x.is_some()) as u8);
+            }
+            // `pair=1`: as many connections as workers, opened and held at the same time
+            let mut pair_obs = String::new();
+            if pair {
+                tokio::time::sleep(Duration::from_millis(400)).await;
+                let tasks: Vec<_> = (0..workers)
+                    .map(|_| {
+                        tokio::spawn(async move {
+                            use tokio::io::AsyncReadExt;
+                            let mut c = tokio::net::TcpStream::connect(addr).await.ok()?;
+                            let _ = socket2::SockRef::from(&c).set_linger(Some(Duration::ZERO));
+                            let mut b = [0u8; 1];
+                            match tokio::time::timeout(w, c.read_exact(&mut b)).await {
+                                Ok(Ok(_)) => Some((c, b[0])),
+                                _ => None,
+                            }
+                        })
+                    })
+                    .collect();
+                let mut heldc = vec![];
+                for t in tasks {
+                    if let Ok(Some(x)) = t.await {
+                        heldc.push(x);
+                    }
+                }
+                if heldc.len() < workers {
+                    fails.push(format!(
+                        "[C08,C03] after {faults} worker(s) had died and been replaced, only {} of {workers} connections opened at the same time were answered within 8 s (answered by instance(s) {:?}{}): a replacement is not in the rotation under an index of its own",
+                        heldc.len(),
+                        heldc.iter().map(|x| x.1 as char).collect::<Vec<_>>(),
+                        limit.map_or(String::new(), |l| format!("; every worker may hold {l}")),
+                    ));
+                }
+                pair_obs = format!(" pair={}/{workers}", heldc.len());
+                drop(heldc);
+                tokio::time::sleep(Duration::from_millis(100)).await;
             }
             // `stop=1`: a connection is held open on the REPLACEMENT worker, then a graceful stop: it has to wait for it
             let mut stop_obs = String::new();
@@ -2044,7 +2286,7 @@ mod srvlevel {
             }
             if exact {
                 format!(
-                    "before={}{} killed={} window={}{} replaced={} later-all-served={}{second_obs}{stop_obs}",
+                    "before={}{} killed={} window={}{} replaced={} later-all-served={}{second_obs}{pair_obs}{stop_obs}",
                     show(answers[0]),
                     show(answers[1]),
                     show(killed),
@@ -2056,7 +2298,7 @@ mod srvlevel {
             } else {
                 // which worker takes which connection depends on timing here: only what the property fixes is shown
                 format!(
-                    "before={}/2 killed={} replaced={} later-all-served={}{second_obs}",
+                    "before={}/2 killed={} replaced={} later-all-served={}{second_obs}{pair_obs}",
                     answers.iter().filter(|x| x.is_some()).count(),
                     show(killed),
                     replaced as u8,
@@ -2630,7 +2872,15 @@ mod gen {
             writeln!(w, "fault f2 faults=2").unwrap();
             writeln!(w, "fault fl limit=1").unwrap();
             writeln!(w, "fault f1 workers=1 limit=1").unwrap();
+            // both workers die one after the other (each replaced before the next fault); then one connection per worker is held
+            // at the same time under max_concurrent_connections(1): the replacements have indices (availability bits) of their own
+            writeln!(w, "fault fp limit=1 faults=2 pair=1").unwrap();
+            // the Server future is dropped without a stop, then a worker dies: the accept thread survives, the live worker serves
+            writeln!(w, "fault fd dropsrv=1").unwrap();
             if thorough {
+                writeln!(w, "fault fp2 faults=2 pair=1").unwrap();
+                writeln!(w, "fault fp3 limit=2 faults=2 pair=1").unwrap();
+                writeln!(w, "fault fd2 dropsrv=1 gap=600").unwrap();
                 writeln!(w, "fault f3 workers=1 faults=2").unwrap();
                 writeln!(w, "fault f4 limit=2 faults=2").unwrap();
                 writeln!(w, "fault f5 workers=1").unwrap();
@@ -2763,7 +3013,22 @@ mod gen {
             srv(&mut *w, "workers=1 timeout=0 mode=g holds=n");
             srv(&mut *w, "workers=2 timeout=2 mode=g holds=n,300,1300");
             srv(&mut *w, "workers=1 timeout=5 mode=f holds=n drop=1");
+            // overlapping stops: the later ones are issued when the first has been taken off the channel; every future waits
+            srv(&mut *w, "workers=1 timeout=5 mode=g holds=1500 second=g,f gap2=300");
+            srv(&mut *w, "workers=2 timeout=2 mode=g holds=n,300 second=f,g gap2=400");
+            // the default configuration (no shutdown_timeout call): 30 s, not less — the client ends its connection after 4.5 s
+            srv(&mut *w, "workers=1 timeout=default mode=g holds=4500");
+            writeln!(w, "sig d0 sig=term timeout=default hold=4500").unwrap();
             if thorough {
+                for holds in ["1300", "n", "300,1300"] {
+                    for second in ["g", "f", "g,g,f", "f,f"] {
+                        for gap2 in [100, 600] {
+                            srv(&mut *w, &format!("workers=2 timeout=3 mode=g holds={holds} second={second} gap2={gap2}"));
+                        }
+                    }
+                }
+                srv(&mut *w, "workers=2 timeout=default mode=g holds=300,3500 second=g gap2=1000");
+                srv(&mut *w, "workers=1 timeout=default mode=f holds=n");
                 for workers in [1usize, 2] {
                     for timeout in [0usize, 1, 2, 5] {
                         for mode in ["g", "f"] {
@@ -2806,7 +3071,10 @@ mod gen {
 fn main() {
     let argv: Vec<String> = std::env::args().collect();
     if argv.get(1).map(|s| s.as_str()) == Some("sigchild") {
-        srvlevel::sigchild(argv.get(2).and_then(|t| t.parse().ok()).unwrap_or(1));
+        srvlevel::sigchild(match argv.get(2).map(|s| s.as_str()) {
+            Some("default") => None,
+            t => Some(t.and_then(|t| t.parse().ok()).unwrap_or(1)),
+        });
         return;
     }
     if argv.get(1).map(|s| s.as_str()) == Some("scnchild") {
